@@ -2,6 +2,19 @@
 // cancellation) plus the generic "interp" engine from hlib.
 package main
 
-import "verif/harness/hlib"
+import (
+	"os"
+	"runtime/pprof"
 
-func main() { hlib.Main() }
+	"verif/harness/hlib"
+)
+
+func main() {
+	if p := os.Getenv("VERIF_CPUPROFILE"); p != "" { // development aid only
+		if f, err := os.Create(p); err == nil {
+			pprof.StartCPUProfile(f)
+			defer pprof.StopCPUProfile()
+		}
+	}
+	hlib.Main()
+}
